@@ -120,6 +120,9 @@ func streamBuildorder(g *core.G) {
 		binOwner := map[string]int{}
 		// names as archives have them: hyphenated, one the prefix / suffix / concatenation of others
 		pool := []string{"qt", "creator", "plugins", "qt-creator", "creator-plugins", "qt-creator-plugins", "lib", "lib-qt", "qt-lib", "a", "a-a", "a-a-a"}
+		if r.Bool() {
+			pool = []string{"net", "cat", "netcat", "catnet", "netcatnet", "catnetcat", "a", "aa", "aaa", "ab", "ba", "aba"}
+		}
 		hyphen := r.Chance(1, 3)
 		if hyphen {
 			for j := len(pool) - 1; j > 0; j-- {
